@@ -2,6 +2,7 @@
 start-up wiring of timeouts in main().  Property C13 (and ids for C16)."""
 import re
 import z3
+import harness
 from values import Int, Bool, UNIT, Agg, Ref, Opaque, Bytes, SeqV, MapV, Future, BV, simp, concrete, fresh_name
 from engine import State, Unsupported
 import contracts as C
@@ -103,7 +104,7 @@ def spec_set_idle_timeout(ck):
     if fn is None:
         return
     ex = ck.engine()
-    ex.benign_havoc = re.compile(r'.')
+    ex.benign_havoc = harness.IRRELEVANT
     st = State()
     fields = ck.si.structs.get('ContextProps', [])
     T0, T1 = z3.BitVec('old_timeout', 64), z3.BitVec('new_timeout', 64)
@@ -126,7 +127,7 @@ def spec_create_context(ck):
     if fn is None:
         return
     ex = ck.engine(loop_bound=4)
-    ex.benign_havoc = re.compile(r'.')
+    ex.benign_havoc = harness.IRRELEVANT
     ex.overrides.append((re.compile(r'RwLock::<.*>::new$'), lambda ctx: ctx.args[0]))
     st = State()
     _clock(ex, st)
@@ -163,7 +164,7 @@ def spec_main_wiring(ck):
     if body is None:
         return
     ex = ck.engine(loop_bound=3, call_depth=6)
-    ex.benign_havoc = re.compile(r'.')
+    ex.benign_havoc = harness.IRRELEVANT
     ex.max_paths = 400
     ex.no_inline = [re.compile(r'.')]
     ex.havoc_result_ok = True      # start-up calls succeed (an Err path just exits the process before serving)
@@ -239,7 +240,7 @@ def spec_copy_bidi_tick(ck):
     if fn is None:
         return
     ex = ck.engine(loop_bound=3, call_depth=8)
-    ex.benign_havoc = re.compile(r'.')
+    ex.benign_havoc = harness.IRRELEVANT
     ex.no_inline = [re.compile(r'copy_half|drain_buffers|Context::|SrcHalf|DstHalf|has_raw_fd|into_owned_fd')]
     ex.max_paths = 600
     st = State()
